@@ -92,6 +92,11 @@ def run(ck, F):
     import c11
     c11.merge_rule_for(ck, F, 'C01')
     K.finish_partial(())
+    # the tables the types are unified in find what they hold only as long as they stay valid search trees: an entry cut off by a wrong rotation is
+    # built a second time -- `same arguments, same node` then depends on what was requested in between
+    import c08 as _c08
+    import c11 as _c11
+    _c08.run(_c11._Only(ck, {'fixup-step', 'descent', 'count-and-reuse'}), F, prefix='C01')
     for r in (K.R_diag, K.R_cover, K.R_lex):
         ck.rules[r]['floor'] = 18
     ck.rules[K.R_atom]['floor'] = 2
